@@ -395,7 +395,7 @@ fn run(ctx: &mut Ctx) {
     // big rulesets (9..80 rules) with unusual rule names
     let odd_names = ["", " ", "rule", "Rule", "rule ", "r\n2", "名前", "0", "facts", "name", "description", "a-b", "__probe"];
     for _ in 0..ctx.tier.of(40, 400) {
-        let n = 9 + rng.below(72);
+        let n = if rng.chance(1, 8) { 81 + rng.below(240) } else { 9 + rng.below(72) };
         let mut rules = vec![];
         let mut labels = vec![];
         for i in 0..n {
